@@ -88,7 +88,7 @@ Qed.
 
 Lemma tails_snoc {A} (l : list A) : tails l = removelast (tails l) ++ [[]].
 Proof.
-  rewrite <- (last_tails l) at 3. apply app_removelast_last. apply tails_nonempty.
+  pose proof (app_removelast_last (@nil A) (tails_nonempty l)) as H. rewrite last_tails in H. exact H.
 Qed.
 
 (* the text walk over the printed labels, label by label *)
@@ -146,12 +146,17 @@ Proof.
   cbn [flat_map fold map]. rewrite fold_app, fold_present_byte by exact Hb. f_equal. exact IH.
 Qed.
 
+Lemma fold_flat_present_label ls : Forall (fun l => Forall (fun b => b < 256) l) ls ->
+  fold (flat_map present_label ls) = flat_map present_label (map fold ls).
+Proof.
+  induction 1 as [|x xs Hx _ IH]; [reflexivity|].
+  cbn [flat_map map]. rewrite fold_app, fold_present_label by exact Hx. f_equal. exact IH.
+Qed.
+
 Lemma fold_present ls : Forall (fun l => Forall (fun b => b < 256) l) ls -> fold (present ls) = present (fold_labels ls).
 Proof.
   intros Hb. destruct ls as [|l ls]; [reflexivity|].
-  unfold present, fold_labels. cbn [map].
-  induction Hb as [|x xs Hx _ IH]; [reflexivity|].
-  cbn [flat_map map]. rewrite fold_app, fold_present_label by exact Hx. f_equal. exact IH.
+  unfold present, fold_labels. cbn [map]. apply (fold_flat_present_label (l :: ls) Hb).
 Qed.
 
 Lemma tails_map {A B} (g : A -> B) l : tails (map g l) = map (map g) (tails l).
@@ -220,4 +225,283 @@ Proof.
   - destruct Hin.
   - exists []. subst. reflexivity.
   - destruct (IH Hin) as [pre E]. exists (x :: pre). rewrite E. reflexivity.
+Qed.
+
+(* ------------------------------------------------------------------ *)
+(* translator tie: middleware/cache.walkFailureZones (loopfunc) with miekg's dns.NextLabel translated from the
+   module cache.  NextLabel decides whether a dot is escaped by counting the backslashes in front of it
+   BACKWARDS; the model's drop_label scans forwards, a backslash swallowing the next octet.  nl_scan is the
+   backward rule as a forward recursion carrying the length of the backslash run; it is proved equal to both. *)
+From Sdns Require Import C03.Proofs_Gen.
+
+Ltac tuple_eq :=
+  repeat match goal with
+         | |- (_, _) = (_, _) => f_equal
+         | |- GoRet _ = GoRet _ => f_equal
+         | |- Some _ = Some _ => f_equal
+         end; try reflexivity; try lia.
+
+Fixpoint lead92 (l : bytes) : nat :=
+  match l with
+  | x :: r => if x =? 92 then S (lead92 r) else O
+  | [] => O
+  end.
+(* length of the run of backslashes that ends just before position i *)
+Definition run_before (s : bytes) (i : nat) : nat := lead92 (rev (firstn i s)).
+
+Lemma firstn_snoc {A} (d : A) s i : (i < length s)%nat -> firstn (S i) s = firstn i s ++ [nth i s d].
+Proof.
+  revert i. induction s as [|x s IH]; intros i Hi; cbn [length] in Hi; [lia|].
+  destruct i as [|i]; [reflexivity|]. cbn [firstn nth app]. f_equal. apply IH. lia.
+Qed.
+
+Lemma run_before_0 s : run_before s 0 = O.
+Proof. reflexivity. Qed.
+Lemma run_before_S s i : (i < length s)%nat ->
+  run_before s (S i) = if nth i s 0 =? 92 then S (run_before s i) else O.
+Proof.
+  intros Hi. unfold run_before. rewrite (firstn_snoc 0 s i Hi), rev_unit. reflexivity.
+Qed.
+
+Fixpoint nl_scan (run : nat) (rest : bytes) : option bytes :=
+  match rest with
+  | [] => None
+  | c :: r =>
+      match r with
+      | [] => None
+      | _ :: _ =>
+          if c =? 46 then (if Nat.even run then Some r else nl_scan O r)
+          else nl_scan (if c =? 92 then S run else O) r
+      end
+  end.
+
+Lemma nl_loop2_spec fuel s off i e : forall lf j, (j <= length s)%nat -> (j < lf)%nat ->
+  go_NextLabel_loop2 fuel lf s off i e (Z.of_nat j - 1)%Z =
+  (GoNext, (s, off, i, e, (Z.of_nat j - 1 - Z.of_nat (run_before s j))%Z)).
+Proof.
+  induction lf as [|lf IH]; intros j Hj Hf; [lia|].
+  cbn [go_NextLabel_loop2].
+  destruct j as [|j].
+  - cbn [Z.of_nat]. rewrite run_before_0. reflexivity.
+  - replace (Z.of_nat (S j) - 1)%Z with (Z.of_nat j) by lia.
+    destruct (Z.leb 0 (Z.of_nat j)) eqn:E0; [|apply Z.leb_gt in E0; lia].
+    rewrite go_idx_nth by lia. rewrite Nat2Z.id. rewrite run_before_S by lia. cbn [andb].
+    destruct (nth j s 0 =? 92) eqn:E.
+    + rewrite IH by lia. tuple_eq.
+    + tuple_eq.
+Qed.
+
+Lemma rem2_parity run : Z.eqb (Z.rem (Z.of_nat run * -1 - 1) 2) 0 = negb (Nat.even run).
+Proof.
+  destruct (Nat.even run) eqn:E; cbn [negb].
+  - apply Nat.even_spec in E. destruct E as [k ->]. apply Z.eqb_neq.
+    replace (Z.of_nat (2 * k) * -1 - 1)%Z with (- (1 + Z.of_nat k * 2))%Z by lia.
+    rewrite Z.rem_opp_l by lia. rewrite Z.rem_add by lia. cbn. lia.
+  - assert (Ho : Nat.odd run = true) by (rewrite <- Nat.negb_even, E; reflexivity).
+    apply Nat.odd_spec in Ho. destruct Ho as [k ->]. apply Z.eqb_eq.
+    replace (Z.of_nat (2 * k + 1) * -1 - 1)%Z with (- (0 + (Z.of_nat k + 1) * 2))%Z by lia.
+    rewrite Z.rem_opp_l by lia. rewrite Z.rem_add by lia. reflexivity.
+Qed.
+
+Lemma nl_loop1_spec fuel s off e : (length s < fuel)%nat ->
+  forall lf i, (i <= length s)%nat -> (length s - i < lf)%nat ->
+  go_NextLabel_loop1 fuel lf s off (Z.of_nat i) e =
+  match nl_scan (run_before s i) (skipn i s) with
+  | Some r => (GoRet (Z.of_nat (length s - length r), false), (s, off, Z.of_nat (length s - length r) - 1, e)%Z)
+  | None => (GoNext, (s, off, Z.max (Z.of_nat i) (go_len s - 1), e))
+  end.
+Proof.
+  intros Hfuel. induction lf as [|lf IH]; intros i Hi Hf; [lia|].
+  cbn [go_NextLabel_loop1]. unfold go_len.
+  destruct (Z.ltb (Z.of_nat i) (Z.of_nat (length s) - 1)) eqn:E.
+  - apply Z.ltb_lt in E.
+    rewrite (skipn_nth_cons 0 s i) by lia. rewrite (skipn_nth_cons 0 s (S i)) by lia.
+    rewrite go_idx_nth by lia. rewrite Nat2Z.id. set (c := nth i s 0).
+    cbn [nl_scan]. rewrite <- (skipn_nth_cons 0 s (S i)) by lia.
+    replace (Z.of_nat i + 1)%Z with (Z.of_nat (S i)) by lia.
+    pose proof (run_before_S s i ltac:(lia)) as Hrun. fold c in Hrun.
+    destruct (c =? 46) eqn:Ec; cbn [negb].
+    + assert (Hc92 : (c =? 92) = false) by (apply N.eqb_eq in Ec; rewrite Ec; reflexivity).
+      rewrite Hc92 in Hrun.
+      rewrite (nl_loop2_spec fuel s off (Z.of_nat i) e fuel i) by lia.
+      replace (Z.of_nat i - 1 - Z.of_nat (run_before s i) - Z.of_nat i)%Z
+        with (Z.of_nat (run_before s i) * -1 - 1)%Z by lia.
+      rewrite rem2_parity. destruct (Nat.even (run_before s i)); cbn [negb].
+      * rewrite skipn_length. replace (length s - (length s - S i))%nat with (S i) by lia.
+        tuple_eq.
+      * rewrite IH by lia. rewrite Hrun.
+        destruct (nl_scan 0 (skipn (S i) s)); [reflexivity|]. unfold go_len. tuple_eq.
+    + rewrite IH by lia. rewrite Hrun.
+      destruct (nl_scan (if c =? 92 then S (run_before s i) else 0%nat) (skipn (S i) s)); [reflexivity|].
+      unfold go_len. tuple_eq.
+  - apply Z.ltb_ge in E.
+    assert (Hs : nl_scan (run_before s i) (skipn i s) = None).
+    { destruct (skipn i s) as [|c [|d t]] eqn:Es; [reflexivity|reflexivity|].
+      exfalso. assert (Hl : length (skipn i s) = 2 + length t)%nat by (rewrite Es; reflexivity).
+      rewrite skipn_length in Hl. lia. }
+    rewrite Hs. tuple_eq.
+Qed.
+
+(* dns.NextLabel(s, 0) on a non-empty string *)
+Lemma gen_NextLabel fuel s : (length s < fuel)%nat -> s <> [] ->
+  go_NextLabel fuel s 0 =
+  Some (match nl_scan O s with
+        | Some r => (Z.of_nat (length s - length r), false)
+        | None => (go_len s, true)
+        end).
+Proof.
+  intros Hf Hs. unfold go_NextLabel.
+  destruct (go_list_eqb N.eqb s []) eqn:E; [apply go_bytes_eqb_eq in E; congruence|].
+  pose proof (nl_loop1_spec fuel s 0%Z false Hf fuel 0%nat ltac:(lia) ltac:(lia)) as H1.
+  cbn [Z.of_nat skipn] in H1. rewrite run_before_0 in H1. rewrite H1.
+  destruct (nl_scan 0 s); [reflexivity|].
+  destruct s; [congruence|]. unfold go_len. cbn [length]. tuple_eq.
+Qed.
+
+Lemma drop_label_single c : drop_label [c] = [].
+Proof.
+  destruct (N.eq_dec c 46) as [->|H1]; [reflexivity|].
+  destruct (N.eq_dec c 92) as [->|H2]; [reflexivity|].
+  rewrite drop_label_other by assumption. reflexivity.
+Qed.
+
+(* the backward rule and the forward scan agree: behind an even run the scan is at a fresh octet, behind an
+   odd run the next octet is escaped *)
+Lemma nl_scan_drop_label : forall rest run,
+  (Nat.even run = true ->
+     match nl_scan run rest with Some r => drop_label rest = r /\ r <> [] | None => drop_label rest = [] end) /\
+  (Nat.even run = false ->
+     match rest with
+     | [] => True
+     | c :: r0 => match nl_scan run rest with Some r => drop_label r0 = r /\ r <> [] | None => drop_label r0 = [] end
+     end).
+Proof.
+  induction rest as [|c r0 IH]; intros run; [split; intros _; reflexivity|].
+  destruct r0 as [|d r1].
+  - split; intros _; cbn [nl_scan]; [apply drop_label_single|reflexivity].
+  - assert (Hs : Nat.even (S run) = negb (Nat.even run)) by (rewrite Nat.even_succ, <- Nat.negb_even; reflexivity).
+    split; intros He; cbn [nl_scan]; rewrite He.
+    + destruct (c =? 46) eqn:E46.
+      * apply N.eqb_eq in E46. subst c. rewrite drop_label_dot. split; [reflexivity|discriminate].
+      * destruct (c =? 92) eqn:E92.
+        -- apply N.eqb_eq in E92. subst c. rewrite drop_label_esc.
+           destruct (IH (S run)) as [_ H2]. rewrite Hs, He in H2. exact (H2 eq_refl).
+        -- apply N.eqb_neq in E46, E92. rewrite drop_label_other by assumption.
+           destruct (IH O) as [H1 _]. exact (H1 eq_refl).
+    + destruct (c =? 46) eqn:E46.
+      * destruct (IH O) as [H1 _]. exact (H1 eq_refl).
+      * destruct (c =? 92) eqn:E92.
+        -- destruct (IH (S run)) as [H1 _]. rewrite Hs, He in H1. exact (H1 eq_refl).
+        -- destruct (IH O) as [H1 _]. exact (H1 eq_refl).
+Qed.
+
+Lemma nl_scan_suffix : forall rest run r, nl_scan run rest = Some r -> exists pre, rest = pre ++ r.
+Proof.
+  induction rest as [|c r0 IH]; intros run r H; [discriminate|].
+  destruct r0 as [|d r1]; [discriminate|]. cbn [nl_scan] in H.
+  destruct (c =? 46).
+  - destruct (Nat.even run).
+    + inversion H; subst. exists [c]. reflexivity.
+    + destruct (IH _ _ H) as [pre E]. exists (c :: pre). rewrite E. reflexivity.
+  - destruct (IH _ _ H) as [pre E]. exists (c :: pre). rewrite E. reflexivity.
+Qed.
+
+Lemma drop_label_length : forall n s, (length s <= n)%nat -> (length (drop_label s) <= length s)%nat.
+Proof.
+  induction n as [|n IH]; intros s Hn.
+  - destruct s; [cbn; lia|cbn in Hn; lia].
+  - destruct s as [|c r]; [cbn; lia|]. cbn [length] in Hn.
+    destruct (N.eq_dec c 46) as [->|H1]; [rewrite drop_label_dot; cbn [length]; lia|].
+    destruct (N.eq_dec c 92) as [->|H2].
+    + destruct r as [|d r']; [cbn; lia|]. rewrite drop_label_esc.
+      pose proof (IH r' ltac:(cbn [length] in Hn; lia)). cbn [length]. lia.
+    + rewrite drop_label_other by assumption. pose proof (IH r ltac:(lia)). cbn [length]. lia.
+Qed.
+
+Lemma drop_label_shorter s : s <> [] -> (length (drop_label s) < length s)%nat.
+Proof.
+  destruct s as [|c r]; [congruence|]. intros _.
+  destruct (N.eq_dec c 46) as [->|H1]; [rewrite drop_label_dot; cbn [length]; lia|].
+  destruct (N.eq_dec c 92) as [->|H2].
+  - destruct r as [|d r']; [cbn; lia|]. rewrite drop_label_esc.
+    pose proof (drop_label_length _ r' (le_n _)). cbn [length]. lia.
+  - rewrite drop_label_other by assumption. pose proof (drop_label_length _ r (le_n _)). cbn [length]. lia.
+Qed.
+
+Lemma pres_suffixes_step f s : s <> [] -> s <> [46] ->
+  pres_suffixes (S f) s = s :: pres_suffixes f (drop_label s).
+Proof.
+  intros H1 H2. destruct s as [|a [|b t]]; [congruence| |apply pres_suffixes_two].
+  cbn [pres_suffixes]. destruct a as [|p]; [reflexivity|].
+  do 7 (try (destruct p as [p|p|]; try reflexivity; try congruence)).
+Qed.
+
+Lemma pres_suffixes_fuel : forall n s f1 f2, (length s <= n)%nat -> (length s < f1)%nat -> (length s < f2)%nat ->
+  pres_suffixes f1 s = pres_suffixes f2 s.
+Proof.
+  induction n as [|n IH]; intros s f1 f2 Hn H1 H2.
+  - destruct s; [|cbn in Hn; lia]. rewrite !pres_suffixes_nil. reflexivity.
+  - destruct f1 as [|f1]; [lia|]. destruct f2 as [|f2]; [lia|].
+    destruct s as [|a t] eqn:Es; [reflexivity|]. rewrite <- Es in *.
+    destruct (list_eq_dec N.eq_dec s [46]) as [E|E]; [rewrite E; reflexivity|].
+    assert (Hne : s <> []) by (rewrite Es; discriminate).
+    rewrite !pres_suffixes_step by assumption. f_equal.
+    pose proof (drop_label_shorter s Hne). apply IH; lia.
+Qed.
+
+(* walkFailureZones' loop on the canonical name: it always ends by its return statement, having handed the
+   callback the elements of the model's name_suffixes in order, up to and including the first one the callback
+   refuses — or the root, which ends the walk *)
+Lemma wfz_loop_root fuel lf visit : go_walkFailureZones_loop1 fuel (S lf) visit [46] = (GoRet tt, (visit, [46])).
+Proof.
+  cbn [go_walkFailureZones_loop1]. replace (go_list_eqb N.eqb [46] [46]) with true by reflexivity.
+  rewrite orb_true_r. reflexivity.
+Qed.
+
+Definition wfz_stop (visit : bytes -> bool) (zone : bytes) : bytes :=
+  match first_false visit (name_suffixes zone) with Some z => z | None => [46] end.
+
+Lemma wfz_stop_root visit : wfz_stop visit [46] = [46].
+Proof. unfold wfz_stop. cbn. destruct (visit [46]); reflexivity. Qed.
+
+Lemma name_suffixes_step s : s <> [] -> s <> [46] -> name_suffixes s = s :: name_suffixes (drop_label s).
+Proof.
+  intros H1 H2. unfold name_suffixes, label_suffixes. rewrite pres_suffixes_step by assumption.
+  cbn [app]. f_equal. f_equal.
+  pose proof (drop_label_shorter s H1). apply (pres_suffixes_fuel (length s)); lia.
+Qed.
+
+Lemma name_suffixes_nil : name_suffixes [] = [[46]].
+Proof. reflexivity. Qed.
+
+Lemma wfz_loop_spec visit fuel : forall lf zone, zone <> [] -> (length zone < fuel)%nat -> (length zone + 1 < lf)%nat ->
+  go_walkFailureZones_loop1 fuel lf visit zone = (GoRet tt, (visit, wfz_stop visit zone)).
+Proof.
+  induction lf as [|lf IH]; intros zone Hne Hfuel Hlf; [lia|].
+  destruct (list_eq_dec N.eq_dec zone [46]) as [E|E].
+  { subst zone. rewrite wfz_loop_root, wfz_stop_root. reflexivity. }
+  cbn [go_walkFailureZones_loop1].
+  assert (Hd : go_list_eqb N.eqb zone [46] = false).
+  { destruct (go_list_eqb N.eqb zone [46]) eqn:Ed; [apply go_bytes_eqb_eq in Ed; congruence|reflexivity]. }
+  rewrite Hd, orb_false_r. unfold wfz_stop. rewrite (name_suffixes_step zone Hne E). cbn [first_false].
+  destruct (visit zone) eqn:Ev; cbn [negb]; [|reflexivity].
+  rewrite gen_NextLabel by assumption.
+  destruct (nl_scan_drop_label zone O) as [Hdl _]. specialize (Hdl eq_refl).
+  destruct (nl_scan O zone) as [r|] eqn:Esc.
+  - destruct Hdl as [Hdl Hr]. destruct (nl_scan_suffix _ _ _ Esc) as [pre Epre].
+    assert (Hsl : go_slice_from zone (Z.of_nat (length zone - length r)) = r).
+    { unfold go_slice_from. rewrite Nat2Z.id. rewrite Epre at 2. rewrite Epre at 1. rewrite app_length.
+      replace (length pre + length r - length r)%nat with (length pre) by lia.
+      rewrite skipn_app, skipn_all, Nat.sub_diag. reflexivity. }
+    rewrite Hsl, Hdl.
+    assert (Hlen : (length r < length zone)%nat) by (rewrite <- Hdl; apply drop_label_shorter; exact Hne).
+    rewrite IH by (try assumption; lia). reflexivity.
+  - rewrite Hdl. destruct lf as [|lf]; [destruct zone; [congruence|cbn [length] in Hlf; lia]|].
+    rewrite wfz_loop_root. rewrite name_suffixes_nil. cbn [first_false]. destruct (visit [46]); reflexivity.
+Qed.
+
+Lemma gen_walkFailureZones visit fuel zone : zone <> [] -> (length zone + 1 < fuel)%nat ->
+  go_walkFailureZones_loop1_run fuel visit zone = (GoRet tt, (visit, wfz_stop visit zone)).
+Proof.
+  intros Hne Hf. unfold go_walkFailureZones_loop1_run. apply wfz_loop_spec; [exact Hne|lia|lia].
 Qed.
